@@ -308,6 +308,27 @@ OBLIGATIONS.append(M("C09", "c09_pubkey_use_total", {"q": "pubkey_use"}, ["Publi
                             "k256 PublicKey::from_sec1_bytes / VerifyingKey::from_encoded_point iff additionally on the curve, AffinePoint::decompress / from_encoded_point return a CtOption that is present iff on the curve (or the identity); CtOption::unwrap / Option::unwrap panic when absent",
                             "stated fact: an encoding of a non-identity curve point is of the compressed or uncompressed kind")))
 
+# ---------------------------------------------------------------- C15 (signature-opcode glue, one step)
+EXPLANATION["C15"] = ("Partial: the GLUE of the signature opcodes, one interpreter step. ECDSA verification, DER and curve-point validity are uninterpreted predicates; the sighash preimage function "
+                      "(Transaction::sighash_preimage_impl, decided against the published formats under C03 / C10) is an uninterpreted function of the flag whose ARGUMENTS are checked. E2 executes "
+                      "match_opcode -> checksig / multisig -> verify_tx_signature / calculate_sighash_preimage -> SighashSignature::from_bytes_impl, Transaction::_verify, ECDSA::verify_hashbuf_impl and "
+                      "PublicKey::from_bytes_impl from MIR on a symbolic stack and spending context and decides: key = top item, signature = item below; the flag is the signature's last byte; the preimage is "
+                      "requested for the input being verified, with the locking-script elements after the last executed code separator and the declared value of the spent output; OP_CHECKSIG(VERIFY) accepts "
+                      "exactly when the item minus its flag byte is valid DER, the key is a curve point and ECDSA verification holds over double-SHA256 of that preimage (not its byte-reversed digest), and "
+                      "rejects when operands, locking script, value or input are missing; OP_CHECKMULTISIG(VERIFY) accepts exactly when the signatures match distinct keys in order (reference matching over the "
+                      "same verification predicate); the step removes exactly its operands (and the dummy) and pushes canonical true/false. NOT decided: whole-script runs (P2PKH assembled end to end is "
+                      "exercised only by the native replay suite), code separators inside conditionals (script_index bookkeeping across spliced branches), that real signatures verify (EC).")
+for _op in ("OP_CHECKSIG", "OP_CHECKSIGVERIFY"):
+    OBLIGATIONS.append(M("C15", f"c15_{_op[3:].lower()}_step", {"q": "checksig", "part": "single", "ops": [_op]}, ["Interpreter::match_opcode (" + _op + ")", "checksig", "verify_tx_signature", "calculate_sighash_preimage", "SighashSignature::from_bytes_impl", "Signature / k256 from_der (predicate)", "Transaction::_verify", "ECDSA::verify_hashbuf_impl", "PublicKey::from_bytes_impl"],
+                         "stack depth 0..3; signature item 0, 1, 9 or 74 bytes and key item 0, 33 or 65 bytes with symbolic content; flag bytes 0x01, 0x41, 0xc3, 0x40 and every non-flag byte (thorough: all 256); code-separator offset 0..4 over a 2-element unlocking and 3-element locking script; locking script / value / input present or absent; a signature item that is itself complete DER (no flag byte) is outside the bound", cost=6))
+OBLIGATIONS.append(M("C15", "c15_multisig_step_n2", {"q": "checksig", "part": "multi", "max_n": 2}, ["Interpreter::match_opcode (OP_CHECKMULTISIG, OP_CHECKMULTISIGVERIFY)", "multisig", "verify_tx_signature", "calculate_sighash_preimage"],
+                     "1 <= m <= n <= 2, signatures 9 bytes (valid DER + flag 0x41 / 0x01 in three assignments), keys 33 bytes on the curve, all verification outcomes symbolic", cost=1))
+OBLIGATIONS.append(M("C15", "c15_multisig_step_n3", {"q": "checksig", "part": "multi", "max_n": 3, "min_n": 3}, ["Interpreter::match_opcode (OP_CHECKMULTISIG, OP_CHECKMULTISIGVERIFY)", "multisig", "verify_tx_signature", "calculate_sighash_preimage"],
+                     "1 <= m <= n = 3, as above", cost=2))
+for _op in ("OP_CHECKSIG", "OP_CHECKSIGVERIFY"):
+    OBLIGATIONS.append(M("C15", f"c15_{_op[3:].lower()}_step_allflags", {"q": "checksig", "part": "single", "ops": [_op], "flags": None}, ["Interpreter::match_opcode (" + _op + ")", "checksig", "verify_tx_signature", "calculate_sighash_preimage", "SighashSignature::from_bytes_impl"],
+                         "as the quick obligation with all 256 values of the flag byte (all fourteen SigHash values)", cost=20, tiers=("thorough",), timeout=5400))
+
 
 def for_property(pid):
     return [dict(o) for o in OBLIGATIONS if o["property"] == pid]
